@@ -506,7 +506,8 @@ pub fn main(tier: Tier, _replay: Option<String>) -> i32 {
     for r in results {
         rep.merge(r);
     }
+    super::c01::forged_rebroadcasts(&mut rep, &tier);
     rep.states = rep.evaluations;
-    rep.required_outcomes = vec!["dust-collected".into(), "rebroadcasts:1".into(), "rebroadcasts:4".into(), "fork-across-history".into()];
+    rep.required_outcomes = vec!["forged-rebroadcast-refused:rebroadcasts-due".into(), "forged-rebroadcast-refused:no-rebroadcast-due".into(), "dust-collected".into(), "rebroadcasts:1".into(), "rebroadcasts:4".into(), "fork-across-history".into()];
     rep.finish()
 }
